@@ -40,7 +40,8 @@ def strategy():
   table = [
       (5, st.tuples(st.just('suggest'), st.integers(1, 3), worker)),
       (4, st.tuples(st.just('complete'), tid, st.sampled_from(
-          ['measurement', 'measurement', 'infeasible', 'none']), val)),
+          ['measurement', 'measurement', 'infeasible', 'none',
+           'infeasible_empty_reason']), val)),
       (2, st.tuples(st.just('add_measurement'), tid, val)),
       (1, st.tuples(st.just('stop'), tid)),
       (1, st.tuples(st.just('early_stop'), tid)),
@@ -238,6 +239,9 @@ def _run_program(dep, backend, ops, owner, variant='small'):
           m = tr.complete(vz.Measurement({'m': op[3]}))
         elif op[2] == 'infeasible':
           m = tr.complete(infeasible_reason='bad')
+        elif op[2] == 'infeasible_empty_reason':
+          # a reason was given (it is not None), if an empty one
+          m = tr.complete(infeasible_reason='')
         else:
           m = tr.complete()
         r = None if m is None else sorted(
@@ -380,6 +384,17 @@ def _check_once(case):
           out.violate('promised/get_trial_missing_not_ResourceNotFoundError/'
                       '%s_%s' % key,
                       'step %d %r in %s/%s -> %r' % (i, op, key[0], key[1], o))
+      if (op[0] == 'complete' and op[2].startswith('infeasible')
+          and o[0] == 'ok' and isinstance(tr[i]['trials'], list)):
+        # client_abc: "infeasible_reason: If set, ... trial is marked as
+        # infeasible"
+        now = [t for t in tr[i]['trials'] if t['id'] == op[1]]
+        if now and not now[0]['infeasible']:
+          out.violate('promised/complete_infeasible_not_infeasible/%s_%s' % key,
+                      'step %d %r in %s/%s returned normally but trial %d is '
+                      'stored as %s, infeasible=%s' % (
+                          i, op, key[0], key[1], op[1], now[0]['status'],
+                          now[0]['infeasible']))
       if op[0] == 'load_before_create' and o != [
           'exc', 'ResourceNotFoundError']:
         out.violate('promised/load_before_create/%s_%s' % key,
